@@ -341,6 +341,35 @@ def cmd_differential(ctx, args, sub="cmd"):
     return fails, len(ids), None
 
 
+def own_cmd_differential(ctx, args, sub="owncmd"):
+    """harness/cmd/engine -cmd: reverse ranges / scans with stored bounds and 0x00 members through the real
+    data layer on mem, pebble, rocksdb; replies must be identical. returns (failures, lines compared)"""
+    d = os.path.join(ctx.run_dir, sub)
+    shutil.rmtree(d, ignore_errors=True)
+    os.makedirs(d)
+    rc, out, _ = sh("%s %s -engines %s -out %s" % (os.path.join(vlib.BIN, "engine"), args, ",".join(ENGINES3), d),
+                    cwd=d, timeout=3000)
+    if rc != 0:
+        log("HARNESS RUN FAILED (command mode):\n" + out[-3000:])
+        raise SystemExit(2)
+    cases = [l.rstrip("\n") for l in open(os.path.join(d, "cmdcases.tsv"))]
+    outs = {e: vlib.read_out(os.path.join(d, "cmd-%s.out" % e))[0] for e in ENGINES3}
+    fails, bad = [], set()
+    for l in cases:
+        cid = l.split("\t")[0]
+        vals = {e: outs[e].get(cid) for e in ENGINES3}
+        if len(set(vals.values())) > 1 or "panic" in vals.values():
+            seq = cid.split(".")[0]
+            if seq in bad:
+                continue
+            bad.add(seq)
+            fails.append(dict(name="cmdseq-" + seq, cid=cid,
+                              case=dict(kind="cmdseq", first_difference=dict(id=cid, replies=vals),
+                                        cases_tsv=[x for x in cases if x.split("\t")[0].split(".")[0] == seq]),
+                              what="the reply of a command (reverse range / scan with stored bounds) depends on engine_type"))
+    return fails, len(cases)
+
+
 def run(ctx):
     quick = ctx.tier == "quick"
     ok, out, _ = vlib.go_build("engine")
@@ -358,6 +387,7 @@ def run(ctx):
     corpus = os.path.join(vlib.VERIF, "corpus", "C20")
     runs = []
     cmd_args = None
+    own_args = None
     if ctx.replay:
         rp = json.load(open(ctx.replay))
         p = os.path.join(ctx.run_dir, "replay_cases.tsv")
@@ -366,6 +396,8 @@ def run(ctx):
                 f.write(line + "\n")
         if (rp.get("case") or {}).get("kind") == "datasim":
             cmd_args = "-replay %s" % p
+        elif (rp.get("case") or {}).get("kind") == "cmdseq":
+            own_args = "-cmdreplay %s" % p
         else:
             runs.append(("replay", "-replay %s" % p))
     elif quick:
@@ -418,10 +450,18 @@ def run(ctx):
     cmd_total, cmd_note = 0, None
     if cmd_args:
         cfails, cmd_total, cmd_note = cmd_differential(ctx, cmd_args)
-        all_fail += cfails
+        all_fail = cfails[:5] + all_fail + cfails[5:]
         if cmd_note:
             ctx.notes.append("command-level cross-engine differential skipped: " + cmd_note)
         hist_all["cmd_differential_lines"] = cmd_total
+
+    if own_args is None and not ctx.replay:
+        own_args = "-cmd -seed %d -n %d" % (ctx.seed, 120 if quick else 3000)
+    own_total = 0
+    if own_args:
+        ofails, own_total = own_cmd_differential(ctx, own_args)
+        all_fail = ofails[:5] + all_fail + ofails[5:]   # command-level evidence first
+        hist_all["own_cmd_differential_lines"] = own_total
 
     def search():
         d2, err = run_harness(ctx, "search", "-seed %d -n 15000 -sweep 12 -nlarge 100 -nmulti 3000 -npfx 1000 -rockpct 50 -engines mem,pebble,rocksdb,membtree,memskip"
@@ -442,7 +482,7 @@ def run(ctx):
                                     "on mem/pebble/rocksdb (+ btree, skiplist indexes)")
     ctx.finish(dict(
         traces_validated_against_impl=total,
-        evaluations=total + cmd_total,
+        evaluations=total + cmd_total + own_total,
         distinct_nontrivial=len(distinct),
         rule="one seeded PRNG generates scripts (1-4 batches of Put/Delete/DeleteRange/Merge over a pool of 1-9 adversarial keys: empty key, "
              "0x00/0xff runs, shared prefixes, key/key+0x00/neighbour bounds; Commit via eng.Write or batch.Commit, Clear, new batch; reads "
@@ -457,7 +497,7 @@ def run(ctx):
              ">= 3 bytes and share one 3-byte prefix). Non-trivial = a commit succeeded and a read returned data; distinct by hash of (engine, script).",
         histogram=hist_all,
         mismatches=len(all_mism),
-        command_level_lines_compared_across_engines=cmd_total,
+        command_level_lines_compared_across_engines=cmd_total + own_total,
         samples=samples[:6],
     ), assumptions=[
         "rocksdb is exercised only with keys and bounds >= 3 bytes that share one 3-byte prefix (Debian's librocksdb asserts on the 3-byte "
